@@ -224,6 +224,10 @@ class Ctx:
 
     def violation(self, what, replay_obj):
         self._nrep += 1
+        if self._nrep > 25:
+            # enough replay files; keep counting
+            self.violations.append({"what": what, "replay": None})
+            return
         path = os.path.join(REPLAYS, f"{self.prop}-{self._nrep}.json")
         with open(path, "w") as f:
             json.dump({"property": self.prop, "what": what, **replay_obj}, f, indent=1)
